@@ -32,3 +32,13 @@ package shrex_getter
 //@   noframe
 //@   ensures result == nil ==> samples[i].Proof != nil
 //@   ensures result != nil ==> samples[i].Proof == nil
+
+// GetEDS decodes every attempt from a buffer that is shared by the attempts of one call: each request
+// must start from a clean buffer, otherwise bytes of a failed transfer would precede (and break) the
+// next, honest peer's response. $BufClean: the buffer was reset and nothing has been read into it since.
+//@ extern (*bytes.Buffer).Reset
+//@   effect $BufClean := true
+//@ func (*Getter).GetEDS$2
+//@   property C06
+//@   noframe
+//@   callpre Client).Get: $BufClean
